@@ -1,4 +1,5 @@
 import Dino.Imex
+import Dino.Invariants
 import Mathlib.Algebra.Module.Basic
 import Mathlib.Algebra.Module.LinearMap.Defs
 import Mathlib.Algebra.Module.LinearMap.Basic
@@ -7,41 +8,59 @@ import Mathlib.Logic.Function.Iterate
 /-!
 # Lemmas for C10, part 6: every integrator of `Dino.Imex` commutes with a linear symmetry
 
-`ρ : V →ₗ[K] V` *intertwines* the IMEX problems `e` (original data) and `e'` (transformed data:
+`ρ : V → V` *intertwines* the IMEX problems `e` (original data) and `e'` (transformed data:
 same equations over the transformed orography) when it commutes with `F`, `G` and the resolvent.
-Every step function of `time_integration.py` is built from these three by linear combinations,
-so it commutes with `ρ` as well; by induction so do whole trajectories, with any filters that
-commute.
+Every step function of `time_integration.py` is built from these three by `+`, scalar `•` and the
+start value `0`, so it commutes with every `ρ` that respects these three operations (`OpHom`) — **no
+algebraic law of the state space is used**, which is why the statement applies verbatim to the
+`tree_math` vectors `TM (StateWithTime K M)` of `Dino.Invariants` (pytrees of lists, with the Python
+scalar `0` and a raised exception as extra points), not only to modules.  By induction whole
+histories (any sequence of schemes, step sizes and commuting filters) commute with `ρ`.
 -/
 namespace Dino.Symmetry
 open Dino Dino.Imex
 
-variable {K V : Type} [Field K] [AddCommGroup V] [Module K V]
+set_option linter.unusedSectionVars false
+
+variable {K V : Type} [Field K] [Add V] [Zero V] [SMul K V]
+
+/-- `ρ` respects the three operations the integrators use on states -/
+structure OpHom (K : Type) {V : Type} [Add V] [Zero V] [SMul K V] (ρ : V → V) : Prop where
+  map_add : ∀ a b, ρ (a + b) = ρ a + ρ b
+  map_smul : ∀ (c : K) a, ρ (c • a) = c • ρ a
+  map_zero : ρ 0 = 0
+
+/-- a linear map of a module is an `OpHom` -/
+theorem OpHom.of_linear {W : Type} [AddCommGroup W] [Module K W] (φ : W →ₗ[K] W) : OpHom K φ :=
+  ⟨_root_.map_add φ, _root_.map_smul φ, _root_.map_zero φ⟩
 
 /-- `ρ` maps solutions of `e` to solutions of `e'` -/
-structure Intertwines (ρ : V →ₗ[K] V) (e e' : ImEx K V) : Prop where
+structure Intertwines (ρ : V → V) (e e' : ImEx K V) : Prop where
+  hom : OpHom K ρ
   F : ∀ x, e'.F (ρ x) = ρ (e.F x)
   G : ∀ x, e'.G (ρ x) = ρ (e.G x)
   Ginv : ∀ x η, e'.Ginv (ρ x) η = ρ (e.Ginv x η)
 
 section
-variable {ρ : V →ₗ[K] V} {e e' : ImEx K V} (I : Intertwines ρ e e')
+variable {ρ : V → V} {e e' : ImEx K V} (I : Intertwines ρ e e')
 include I
 
-theorem timeReversed_intertwines : Intertwines ρ (timeReversed e) (timeReversed e') where
-  F x := by simp only [timeReversed, I.F, map_neg]
-  G x := by simp only [timeReversed, I.G, map_neg]
+theorem timeReversed_intertwines [Neg V] (hneg : ∀ a, ρ (-a) = -ρ a) :
+    Intertwines ρ (timeReversed e) (timeReversed e') where
+  hom := I.hom
+  F x := by simp only [timeReversed, I.F, hneg]
+  G x := by simp only [timeReversed, I.G, hneg]
   Ginv x η := by simp only [timeReversed, I.Ginv]
 
 theorem bfe_equiv (dt : K) (u : V) : bfe e' dt (ρ u) = ρ (bfe e dt u) := by
-  simp only [bfe, I.F, I.Ginv, ← map_smul, ← map_add]
+  simp only [bfe, I.F, I.Ginv, ← I.hom.map_smul, ← I.hom.map_add]
 
 theorem cnrk2_equiv (dt : K) (u : V) : cnrk2 e' dt (ρ u) = ρ (cnrk2 e dt u) := by
-  simp only [cnrk2, I.F, I.G, I.Ginv, ← map_smul, ← map_add]
+  simp only [cnrk2, I.F, I.G, I.Ginv, ← I.hom.map_smul, ← I.hom.map_add]
 
 theorem leapfrog_equiv (dt α : K) (u : V × V) :
     leapfrog e' dt α (ρ u.1, ρ u.2) = (ρ (leapfrog e dt α u).1, ρ (leapfrog e dt α u).2) := by
-  simp only [leapfrog, I.F, I.G, I.Ginv, ← map_smul, ← map_add]
+  simp only [leapfrog, I.F, I.G, I.Ginv, ← I.hom.map_smul, ← I.hom.map_add]
 
 theorem lsrkLoop_equiv (dt : K) (as bs cs : List K) (u h : V) :
     lsrkLoop e' dt as bs cs (ρ u) (ρ h) = ρ (lsrkLoop e dt as bs cs u h) := by
@@ -59,7 +78,7 @@ theorem lsrkLoop_equiv (dt : K) (as bs cs : List K) (u h : V) :
         cases cs with
         | nil => rfl
         | cons c cs =>
-          simp only [lsrkLoop, I.F, I.G, ← map_smul, ← map_add, I.Ginv]
+          simp only [lsrkLoop, I.F, I.G, ← I.hom.map_smul, ← I.hom.map_add, I.Ginv]
           exact ih _ _ _ _
 
 theorem lsrk_equiv (dt : K) (αs βs γs : List K) :
@@ -72,11 +91,11 @@ theorem lsrk_equiv (dt : K) (αs βs γs : List K) :
     simp only [Option.some.injEq] at h' h
     subst h' h
     have := lsrkLoop_equiv I dt αs βs γs u 0
-    rwa [map_zero] at this
+    rwa [I.hom.map_zero] at this
   · exact ⟨rfl, fun s' s h' => by simp at h'⟩
 
 omit I in
-theorem wsum_equiv (nz : K → Bool) (row : List K) (fs : List V) :
+theorem wsum_equiv (hρ : OpHom K ρ) (nz : K → Bool) (row : List K) (fs : List V) :
     wsum nz row (fs.map ρ) = ρ (wsum nz row fs) := by
   unfold wsum
   have : ∀ (l : List (K × V)) (acc : V),
@@ -89,13 +108,13 @@ theorem wsum_equiv (nz : K → Bool) (row : List K) (fs : List V) :
       intro acc
       simp only [List.map_cons, List.foldl_cons]
       split
-      · rw [← map_smul, ← map_add, ih]
+      · rw [← hρ.map_smul, ← hρ.map_add, ih]
       · rw [ih]
   have hz : row.zip (fs.map ρ) = (row.zip fs).map fun p => (p.1, ρ p.2) := by
     rw [List.zip_map_right]; rfl
   rw [hz]
   have h0 := this (row.zip fs) 0
-  rwa [map_zero] at h0
+  rwa [hρ.map_zero] at h0
 
 theorem stages_equiv (nz : K → Bool) (dt : K) (y0 : V) (aEx aIm : List (List K)) (fs gs : List V) :
     stages nz e' dt (ρ y0) aEx aIm (fs.map ρ) (gs.map ρ)
@@ -106,7 +125,7 @@ theorem stages_equiv (nz : K → Bool) (dt : K) (y0 : V) (aEx aIm : List (List K
     cases aIm with
     | nil => rfl
     | cons rim tim =>
-      simp only [stages, wsum_equiv, ← map_smul, ← map_add, I.Ginv, I.F, I.G, List.length_map]
+      simp only [stages, wsum_equiv I.hom, ← I.hom.map_smul, ← I.hom.map_add, I.Ginv, I.F, I.G, List.length_map]
       have h1 : fs.map ρ ++ [ρ (e.F (e.Ginv (y0 + dt • wsum nz rex fs + dt • wsum nz rim gs)
           (dt * rim.getD fs.length 0)))]
           = (fs ++ [e.F (e.Ginv (y0 + dt • wsum nz rex fs + dt • wsum nz rim gs)
@@ -122,7 +141,7 @@ theorem imexRKStep_equiv (nz : K → Bool) (dt : K) (t : Tableau K) (y0 : V) :
   unfold imexRKStep
   have h := stages_equiv I nz dt y0 t.aEx t.aIm [e.F y0] [e.G y0]
   simp only [List.map_cons, List.map_nil, ← I.F, ← I.G] at h
-  simp only [h, wsum_equiv, ← map_smul, ← map_add]
+  simp only [h, wsum_equiv I.hom, ← I.hom.map_smul, ← I.hom.map_add]
 
 theorem imexRK_equiv (nz : K → Bool) (dt : K) (t : Tableau K) :
     (imexRK nz e' dt t).isSome = (imexRK nz e dt t).isSome ∧
